@@ -209,6 +209,18 @@ func c08Transcripts() []c08Transcript {
 		t.expectID["a"] = ""
 		t.afterBadHello = true
 	}
+	{ // a hello that must be refused, from a plugin that talks on regardless; three calls at once afterwards
+		t := mk("unsupported-version-4-plugin-goes-on", 4)
+		a, b, c := ex("a", "echo", nil), ex("b", "echo", nil), ex("c", "echo2", nil)
+		t.groups = [][]rig.ExecSpec{{a, b, c}}
+		for i, e := range []rig.ExecSpec{a, b, c} {
+			m, _, _ := done(e.RunID, e.StepID, e.Input)
+			m.gateRun, m.gateCount, m.terminalFor = "", 1+i, ""
+			t.msgs = append(t.msgs, m)
+			t.expectID[e.RunID] = ""
+		}
+		t.afterBadHello = true
+	}
 	scopeWith := func(root, key, id string) map[string]any {
 		return map[string]any{"root": root, "objects": map[string]any{key: map[string]any{"id": id, "properties": map[string]any{}}}}
 	}
